@@ -18,6 +18,7 @@ REQUIRED_COUNTERS = ["frames_parsed", "decoder_returns_checked", "messages_reass
 SHARD_TIMEOUT = {"quick": 200, "thorough": 1500}
 
 STUB_PGN = 130999          # PF=0xFF (PDU2); not in the database
+HEAD_PROBE = bytes([0xFE, 0x07, 1, 2, 3, 4, 5, 6, 9])
 FORMATS = ("ebyte", "usb", "yd")
 
 
@@ -110,10 +111,30 @@ def install_stub():
     return box, cleanup
 
 
+def seam_works(box) -> bool:
+    """Does the library pick up codecs registered under the generated naming convention? (It may legitimately
+    not - e.g. after a refactor to a registry built at import time; then only the public path is exercised.)"""
+    box["payload"] = b"\x01\x02\x03\x04\x05\x06\x07\x08\x09"
+    try:
+        fr = NMEA2000Encoder().encode_ebyte(NMEA2000Message(PGN=STUB_PGN, id="verifStub", priority=1, source=1, destination=255))
+        dec = NMEA2000Decoder()
+        r = None
+        for p in fr:
+            r = dec.decode_tcp(p)
+        return len(fr) == 2 and r is not None and r.id == "verifStub"
+    except Exception:  # noqa: BLE001
+        return False
+
+
 def run_stub(spec, acc):
     rng = gen.rng_for(spec["seed"], ID, spec["name"])
     fmt, rot = spec["fmt"], spec["rot"]
     box, cleanup = install_stub()
+    if not seam_works(box):
+        cleanup()
+        acc.note("stub codec seam unavailable: arbitrary-length payloads cannot be pushed through the library's segmentation; public path only")
+        acc.set_exhaustive("lengths 0..223 x counter states 0..7 x 3 formats", False)
+        return
     try:
         for rep in range(spec["reps"]):
             enc = NMEA2000Encoder()
@@ -254,10 +275,18 @@ def run_fallback(spec, acc):
         acc.note("no fallback definition for PGN 126720 in the database")
         return
     name = f"encode_pgn_126720_{fb.id}"
-    box = {"payload": b""}
+    box = {"payload": HEAD_PROBE}
     orig = getattr(encoder_mod, name, None)
     setattr(encoder_mod, name, lambda m: box["payload"])
     try:
+        try:
+            probe = encode_frames(NMEA2000Encoder(), "ebyte", NMEA2000Message(PGN=126720, id=fb.id, priority=6, source=33, destination=44))
+            ok = wire.parse_fast_frames([d for _, d, _ in probe]).get("payload", b"")[:len(HEAD_PROBE)] == HEAD_PROBE
+        except Exception:  # noqa: BLE001
+            ok = False
+        if not ok:
+            acc.note("stub codec seam unavailable: fallback-definition payloads not exercised")
+            return
         for fmt in FORMATS:
             enc, dec = NMEA2000Encoder(), NMEA2000Decoder()
             msg = NMEA2000Message(PGN=126720, id=fb.id, priority=6, source=33, destination=44)
@@ -303,6 +332,10 @@ def run_multistream(spec, acc):
     fmt = spec["fmt"]
     quick = spec["tier"] == "quick"
     box, cleanup = install_stub()
+    if not seam_works(box):
+        cleanup()
+        acc.note("stub codec seam unavailable: multistream sequences not exercised")
+        return
     try:
         patterns = []
         for gap in (7, 15, 6, 8, 1):
